@@ -2,7 +2,7 @@
 # tools/seedtest.sh <ID> <patch.diff> [tier]  — self-test only: apply a patch to a scratch worktree of
 # /repo (outside /repo and /verif), run ./check <ID> against it via VERIF_REPO, remove the worktree.
 # Prints the check's VIOLATION line (expected) or "MISSED". Never touches /repo's working tree.
-id=$1; patch=$2; tier=${3:-quick}
+id=$1; patch=$(readlink -f "$2"); tier=${3:-quick}
 wt=/tmp/seedtest-$id-$$
 git -C /repo worktree add -q --detach "$wt" HEAD || exit 2
 if ! git -C "$wt" apply "$patch"; then echo "PATCH-DOES-NOT-APPLY $patch"; git -C /repo worktree remove --force "$wt"; exit 3; fi
